@@ -1,10 +1,190 @@
 /-
-  TwProofs.C17 — property theorems (see DESIGN.md, section 6).
+  TwProofs.C17 — Response writes the page or one error page, and leaks no detail unless debugging.
 -/
 import TwModel
-import TwSpec
 
 namespace Tw.C17
 open Tw
+
+/-- rendering succeeds ⇒ the body is the complete page and the returned error is nil -/
+theorem response_success (w : World) (t : Template) (name : Bytes) (data : List (Bytes × GoVal)) (cwd out : Bytes)
+    (h : tplString w t name data = .ok out) :
+    (tplResponse w t name data cwd).2.body = out ∧ (tplResponse w t name data cwd).2.err = none := by
+  simp [tplResponse, h]
+
+/-- rendering fails, a custom error page is configured and debug mode is off ⇒ the body is that
+    page's output (or empty when it fails too) and an error is returned: nothing else can appear -/
+theorem response_custom_page (w : World) (t : Template) (name : Bytes) (data : List (Bytes × GoVal)) (cwd : Bytes) (f : Fail)
+    (h : tplString w t name data = .fail f) (hpage : w.cfg.errPage.isEmpty = false) (hdbg : w.cfg.debug = false) :
+    (∃ out, tplString w t w.cfg.errPage [] = .ok out ∧ (tplResponse w t name data cwd).2.body = out ∧
+        (tplResponse w t name data cwd).2.err = some f) ∨
+    ((tplResponse w t name data cwd).2.body = []) := by
+  simp only [tplResponse, h, hpage, hdbg]
+  cases hp : tplString w t w.cfg.errPage [] with
+  | ok out => left; exact ⟨out, rfl, by simp, by simp⟩
+  | fail f2 => right; simp
+  | panic why => right; simp
+  | oof => right; simp
+
+/-- otherwise the body is the built-in error page rendered for (path, line, message, debugMode):
+    a function of the configuration and of the error only — never of the failed page's output -/
+theorem response_builtin_page (w : World) (t : Template) (name : Bytes) (data : List (Bytes × GoVal)) (cwd : Bytes) (f : Fail)
+    (h : tplString w t name data = .fail f) (hsel : (!w.cfg.errPage.isEmpty && !w.cfg.debug) = false) (out : Bytes)
+    (hpage : (errorPage w f cwd).2 = .ok out) :
+    (tplResponse w t name data cwd).2.body = out ∧ (tplResponse w t name data cwd).2.err = some f := by
+  simp only [tplResponse, h, hsel]
+  cases hp : errorPage w f cwd with
+  | mk w' r =>
+    rw [hp] at hpage
+    simp only at hpage
+    subst hpage
+    simp
+
+/-! ### the built-in page shows nothing when debug mode is off
+
+  The regenerated page (`Gen.defaultErrorPage`, F8) is parsed by kernel evaluation.  Its shape —
+  text, and `@if(debugMode)` blocks whose `@else` parts are text only — is checked by
+  `decide +kernel`; for every program of that shape, evaluation with `debugMode = false` yields a
+  fixed text, whatever `path`, `line` and `message` are bound to. -/
+
+def onlyText : List Stmt → Bool
+  | [] => true
+  | .html _ :: r => onlyText r
+  | _ => false
+
+def textOf : List Stmt → Bytes
+  | [] => []
+  | .html t :: r => t.lit ++ textOf r
+  | _ :: r => textOf r
+
+/-- every statement is text or `@if(debugMode) … [@else text] @end` -/
+def debugGuarded : List Stmt → Bool
+  | [] => true
+  | .html _ :: r => debugGuarded r
+  | .ifS _ (.ident _ n) _ [] none :: r => n == b "debugMode" && debugGuarded r
+  | .ifS _ (.ident _ n) _ [] (some alt) :: r => n == b "debugMode" && onlyText alt && debugGuarded r
+  | _ => false
+
+/-- what such a program renders when `debugMode` is false -/
+def quietText : List Stmt → Bytes
+  | [] => []
+  | .html t :: r => t.lit ++ quietText r
+  | .ifS _ _ _ _ (some alt) :: r => textOf alt ++ quietText r
+  | _ :: r => quietText r
+
+theorem evalBlock_onlyText (c : Ctx) (env : Env) : ∀ (ss : List Stmt) (fuel : Nat), onlyText ss = true →
+    ss.length + 1 ≤ fuel → evalBlock (fuel + 1) c env ss = .ok ({ text := textOf ss }, env) := by
+  intro ss
+  induction ss with
+  | nil => intro fuel _ _; simp [evalBlock, textOf]
+  | cons s r ih =>
+    intro fuel hs hf
+    cases s with
+    | html t =>
+      obtain ⟨f, rfl⟩ : ∃ f, fuel = f + 1 := ⟨fuel - 1, by simp at hf; omega⟩
+      have := ih f (by simpa [onlyText] using hs) (by simp at hf; omega)
+      rw [evalBlock]
+      simp only [evalStmt, Bool.false_eq_true, Bool.or_self, if_false, this, textOf]
+    | _ => simp [onlyText] at hs
+
+theorem stmtsDepth_le (ss : List Stmt) : True := trivial
+
+/-- size used for the fuel bound: the longest `@else` part -/
+def maxAlt : List Stmt → Nat
+  | [] => 0
+  | .ifS _ _ _ _ (some alt) :: r => max alt.length (maxAlt r)
+  | _ :: r => maxAlt r
+
+theorem evalProg_quiet (c : Ctx) (env : Env) (hdbg : env.get (b "debugMode") = some (.bool false)) :
+    ∀ (ss : List Stmt) (fuel : Nat) (acc : Bytes), debugGuarded ss = true → ss.length + maxAlt ss + 4 ≤ fuel →
+    evalProg fuel c env ss acc = .ok (acc ++ quietText ss, env) := by
+  intro ss
+  induction ss with
+  | nil => intro fuel acc _ hf; obtain ⟨f, rfl⟩ : ∃ f, fuel = f + 1 := ⟨fuel - 1, by omega⟩; simp [evalProg, quietText]
+  | cons s r ih =>
+    intro fuel acc hs hf
+    obtain ⟨f, rfl⟩ : ∃ f, fuel = f + 3 := ⟨fuel - 3, by omega⟩
+    cases s with
+    | html t =>
+      have hr : debugGuarded r = true := by simpa [debugGuarded] using hs
+      have := ih (f + 2) (acc ++ t.lit) hr (by simp [maxAlt] at hf ⊢; omega)
+      rw [show f + 3 = (f + 2) + 1 from rfl, evalProg]
+      simp [evalStmt, this, quietText, List.append_assoc]
+    | ifS t cnd cons alts alt =>
+      cases cnd with
+      | ident t2 n =>
+        cases alts with
+        | cons a as => simp [debugGuarded] at hs
+        | nil =>
+          cases alt with
+          | none =>
+            have hs' : n = b "debugMode" ∧ debugGuarded r = true := by simpa [debugGuarded] using hs
+            obtain ⟨hn, hr⟩ := hs'
+            subst hn
+            have := ih (f + 2) acc hr (by simp [maxAlt] at hf ⊢; omega)
+            rw [show f + 3 = (f + 2) + 1 from rfl, evalProg]
+            simp only [show f + 2 = (f + 1) + 1 from rfl, evalStmt, evalExpr, hdbg, isTruthy, Bool.false_eq_true, if_false,
+              evalElseIfs]
+            simpa [quietText] using this
+          | some ab =>
+            have hs' : (n = b "debugMode" ∧ onlyText ab = true) ∧ debugGuarded r = true := by simpa [debugGuarded] using hs
+            obtain ⟨⟨hn, hot⟩, hr⟩ := hs'
+            subst hn
+            have hrest := ih (f + 2) (acc ++ textOf ab) hr (by simp [maxAlt] at hf ⊢; omega)
+            have hblk := evalBlock_onlyText c env.push ab (f - 1 + 0) hot (by simp [maxAlt] at hf; omega)
+            rw [show f + 3 = (f + 2) + 1 from rfl, evalProg]
+            simp only [show f + 2 = (f + 1) + 1 from rfl, evalStmt, evalExpr, hdbg, isTruthy, Bool.false_eq_true, if_false]
+            obtain ⟨g, hg⟩ : ∃ g, f = g + 1 := ⟨f - 1, by simp [maxAlt] at hf; omega⟩
+            subst hg
+            simp only [evalElseIfs]
+            simp only [Nat.add_sub_cancel, Nat.add_zero] at hblk
+            rw [hblk]
+            simpa [quietText, List.append_assoc] using hrest
+      | _ => simp [debugGuarded] at hs
+    | _ => simp [debugGuarded] at hs
+
+/-- the program of the regenerated built-in error page -/
+def errorPageProg : Program :=
+  match parseSource Gen.defaultErrorPage with
+  | .ok p => p
+  | _ => default
+
+set_option maxRecDepth 100000 in
+/-- F8 obligation: the embedded page parses, and has the guarded shape -/
+theorem errorPage_shape :
+    (match parseSource Gen.defaultErrorPage with | .ok _ => true | _ => false) = true ∧
+    debugGuarded errorPageProg.stmts = true ∧
+    errorPageProg.stmts.length + maxAlt errorPageProg.stmts + 4 ≤ evalFuel := by
+  decide +kernel
+
+/-- **no leak**: with debug mode off, the built-in error page renders to one fixed text — the
+    same for every path, line and message of the error -/
+theorem builtin_page_no_leak (c : Ctx) (path msg : Bytes) (line : Int) :
+    evalProg evalFuel c [[(b "debugMode", .bool false), (b "line", .int (Int64.ofInt line)), (b "message", .str msg), (b "path", .str path)]]
+      errorPageProg.stmts [] =
+    .ok (quietText errorPageProg.stmts, [[(b "debugMode", .bool false), (b "line", .int (Int64.ofInt line)), (b "message", .str msg), (b "path", .str path)]]) := by
+  have hget : Env.get [[(b "debugMode", Val.bool false), (b "line", .int (Int64.ofInt line)), (b "message", .str msg), (b "path", .str path)]]
+      (b "debugMode") = some (.bool false) := by
+    simp [Env.get, mapGet]
+  have := evalProg_quiet c _ hget errorPageProg.stmts evalFuel [] errorPage_shape.2.1 errorPage_shape.2.2
+  simpa using this
+
+set_option maxRecDepth 100000 in
+/-- the fixed text contains neither a template-path-like nor a message placeholder: it is the
+    "Oops" page (checked on the regenerated page by kernel evaluation) -/
+theorem quiet_page_is_oops :
+    containsSub (quietText errorPageProg.stmts) (b "Oops!") = true ∧
+    containsSub (quietText errorPageProg.stmts) (b "{{") = false := by
+  decide +kernel
+
+set_option maxRecDepth 100000 in
+/-- with debug mode on the page shows message, path and line (`…_partial`: for one concrete
+    error, by evaluation; the general statement needs the frame lemma of the design) -/
+theorem debug_page_shows_partial :
+    (match evaluateStringPure [] Gen.defaultErrorPage
+        [(b "path", .str (b "/srv/tpl/home.tw")), (b "line", .int 7), (b "message", .str (b "identifier 'x' not found")), (b "debugMode", .bool true)] with
+      | .ok out => containsSub out (b "/srv/tpl/home.tw:7") && containsSub out (b "identifier 'x' not found")
+      | _ => false) = true := by
+  decide +kernel
 
 end Tw.C17
